@@ -73,6 +73,11 @@ def suites(prop: str, tier: str) -> t.List[Suite]:
                   collab={'raise_at': [kind, k], 'store': 'rec'}, symptoms=TERM, max_nodes=4 if q else 5, plans='ok+fail')
             for kind in ('pipeline_start', 'node_start', 'node_complete', 'pipeline_complete', 'save')
             for k in ((0, 1) if kind in ('node_start', 'node_complete', 'save') else (0,))
+        ] + [
+            Suite(f'two-managers-raise-{kind}@{k}', ['corpus', 'plain'], ['term'], 0, ['async'],
+                  collab={'two_managers': True, 'mode': 'gated', 'gate_mgrs': [0], 'raise_at': [kind, k], 'raise_mgr': 1, 'store': 'rec'},
+                  symptoms=TERM, max_nodes=4 if q else 5, plans='ok+fail')
+            for kind in ('node_start', 'node_complete') for k in (0, 1)
         ] + ([] if q else [Suite('d2', ['corpus', 'plain', 'oneof', 'switch', 'rec'], ['term'], 2, ['thread'], symptoms=TERM, max_nodes=5, limit=20000)])
     if prop == 'C03':
         return [
@@ -144,6 +149,13 @@ def suites(prop: str, tier: str) -> t.List[Suite]:
             Suite('cancel-gated-collab', ['corpus', 'plain'], ['left', 'cancel'], 0, ['async'], collab={'mode': 'gated', 'store': 'rec'},
                   symptoms=LEFT, plans='cancel1', max_nodes=4 if q else 5, limit=4000),
             Suite('d1', ['corpus'] + ([] if q else ['oneof', 'rec']), ['left'], 1, ['thread'], symptoms=LEFT, max_nodes=5),
+        ] + [
+            # two event managers: the first one is suspended inside its callback while the second one raises
+            Suite(f'two-managers-raise-{kind}@{k}', ['corpus', 'plain'], ['left'], 0, ['async'],
+                  collab={'two_managers': True, 'mode': 'gated', 'gate_mgrs': [0], 'raise_at': [kind, k], 'raise_mgr': 1, 'store': 'rec'},
+                  symptoms=LEFT, max_nodes=4 if q else 5, plans='ok+fail')
+            for kind in ('pipeline_start', 'node_start', 'node_complete', 'pipeline_complete')
+            for k in ((0, 1) if kind in ('node_start', 'node_complete') else (0,))
         ]
     if prop == 'C14':
         return [
